@@ -1352,6 +1352,21 @@ def impl_e2e(a):
         r = S.generate_full(route, a["schemas"], a["options"], sh)
         if r.get("digest") != d0:
             return err(f"NONREPRODUCIBLE route={route} shuffle={sh}: {r.get('err', r.get('digest'))}")
+    if len(a["schemas"]) > 1:
+        # the same source set in another list order: the same generation up to what the listed
+        # findings C12-F6 / C12-F7 describe (c12_explain.py), nothing else
+        import c12_explain as X
+
+        r0 = S.generate_full("api", a["schemas"], a["options"], None)
+        r = S.generate_full("api", a["schemas"], a["options"], None, "reversed")
+        if r.get("digest") != r0.get("digest"):
+            if "files" not in r or "files" not in r0:
+                if X.uri_order_error_explained(r0, r, a["schemas"], a["options"])[0]:
+                    return out
+                return err(f"NONREPRODUCIBLE uris-reversed: {r0.get('err')} vs {r.get('err')}")
+            fid, why = X.uri_order_explains(r0["files"], r["files"], a["schemas"], a["options"])
+            if not fid:
+                return err(f"NONREPRODUCIBLE uris-reversed: {why}")
     if not a.get("_nw"):
         for w in workers():
             r = w.call({"cmd": "generate", "route": "api", "schemas": a["schemas"], "options": a["options"], "shuffle": None})
@@ -1872,38 +1887,96 @@ def e2e_runs(a, tier="quick"):
         yield f"api/hashseed{w.seed}", r
 
 
-def check_e2e(a):
+_E2E_CLASSIFIED: dict[str, list] = {}
+
+
+def _e2e_key(a):
+    from framework import canon_hash
+
+    return canon_hash([a["schemas"], a["options"]])
+
+
+def e2e_diffs(a):
+    """Every axis on which the generation differs from the first run, each classified:
+    [(message, finding id or None)].  A listed finding covers a difference only when the
+    difference is exactly of the kind the finding describes (c12_explain.py):
+      C12-F3  include_header is on and nothing but the timestamp of the header line differs;
+      C12-F6 / C12-F7  the axis is api/uris-reversed and the two outputs are the same generation
+              presented differently (class order / imports / cluster name / duplicate numbering;
+              F7: plus the fields a base type and two derived types declare under one name).
+    With include_header on, the timestamps are masked before anything else is compared, so the
+    header never hides another difference of the same file."""
+    import c12_explain as X
+
+    header = bool(a["options"].get("include_header"))
+    out = []
     ref = None
     for label, r in e2e_runs(a):
         if ref is None:
             ref = (label, r)
             continue
-        if r.get("digest") != ref[1].get("digest") or r.get("err") != ref[1].get("err"):
-            if "files" in r and "files" in ref[1]:
-                where = first_diff(ref[1]["files"], r["files"])
-            else:
-                where = f"{ref[1].get('err')} vs {r.get('err')}: {r.get('msg', '')[:80]}"
-            return f"generation differs between {ref[0]} and {label}: {where}"
-    return None
+        r0 = ref[1]
+        if r.get("digest") == r0.get("digest") and r.get("err") == r0.get("err"):
+            continue
+        if "files" not in r or "files" not in r0:
+            fid, why = (None, "")
+            if label == "api/uris-reversed":
+                fid, why = X.uri_order_error_explained(r0, r, a["schemas"], a["options"])
+                why = f" [{why}]"
+            out.append((f"generation differs between {ref[0]} and {label}: {r0.get('err')} vs {r.get('err')}: {(r.get('msg') or r0.get('msg') or '')[:80]}{why}", fid))
+            continue
+        fa, fb = r0["files"], r["files"]
+        fid = None
+        if header:
+            ma, mb = X.strip_timestamps(fa), X.strip_timestamps(fb)
+            if ma == mb:
+                fid = "C12-F3" if X.only_timestamp_differs(fa, fb) else None
+                out.append((f"generation differs between {ref[0]} and {label}: {first_diff(fa, fb)}", fid))
+                continue
+            fa, fb = ma, mb
+        why = ""
+        if label == "api/uris-reversed" and len(a["schemas"]) > 1:
+            fid, why = X.uri_order_explains(fa, fb, a["schemas"], a["options"])
+            why = f" [{'same generation up to' if fid else 'not explained by the URI order'}: {why}]"
+        out.append((f"generation differs between {ref[0]} and {label}: {first_diff(fa, fb)}{why}", fid))
+    return out
+
+
+def check_e2e(a):
+    diffs = e2e_diffs(a)
+    _E2E_CLASSIFIED[_e2e_key(a)] = diffs
+    for msg, fid in diffs:
+        if fid is None:
+            return msg  # a difference no listed finding describes comes first
+    return diffs[0][0] if diffs else None
 
 
 def covered_e2e(a, msg):
-    o = a["options"]
-    if " and api/uris-reversed:" in msg and len(a["schemas"]) > 1:
-        # the only difference between the two runs is the list order of the URIs given to the API
-        return "C12-F6"
-    if o.get("include_header") and "This file was generated by xsdata" in msg:
-        return "C12-F3"
-    return None
+    """the finding that covers `msg` -- only if *every* difference seen on this input is covered"""
+    diffs = _E2E_CLASSIFIED.get(_e2e_key(a))
+    if diffs is None or not any(m == msg for m, _f in diffs):
+        return None
+    if any(fid is None for _m, fid in diffs):
+        return None
+    return next(fid for m, fid in diffs if m == msg)
 
 
 def gen_oracle_e2e(rng, tier):
     yield {"schemas": SEQLEAK_SCHEMA, "options": SEQLEAK_OPTIONS}
+    # the header route (C12-F3 covers the timestamp, and only the timestamp)
+    yield {"schemas": URI_ORDER_SCHEMAS, "options": {"structure_style": "filenames", "package": "gen", "include_header": True}}
+    # the witnesses of the listed findings on the URI order, in the styles they show up differently
+    for style in ("single-package", "filenames", "clusters"):
+        yield {"schemas": URI_ORDER_SCHEMAS, "options": {"structure_style": style, "package": "gen"}}
+    yield {"schemas": OVERRIDE_ORDER_SCHEMAS, "options": {"structure_style": "namespaces", "package": "gen"}}
     for i in range(12 if tier == "quick" else 300):
-        schemas = make_schema_set(rng)
+        # several files more often than not: most axes only bite there
+        schemas = make_schema_set(rng, n_ns=rng.choice([0, 1, 2, 3, 2, 3]))
         options = e2e_options(rng, rng.choice(["clusters", "namespace-clusters", "filenames", "namespaces", "single-package"]))
         if rng.random() < 0.15:
             options["generic_collections"] = True
+        if rng.random() < 0.15:
+            options["include_header"] = True  # C12-F3: covered only when nothing but the timestamp differs
         yield {"schemas": schemas, "options": options}
 
 
@@ -2166,7 +2239,59 @@ def finding_uri_order():
     return a["digest"] != b["digest"], "process([f0, f1]) vs process([f1, f0]): " + first_diff(a["files"], b["files"])
 
 
+OVERRIDE_ORDER_SCHEMAS = {
+    "f0.xsd": (
+        f'<xs:schema xmlns:xs="{XS}" xmlns:n1="urn:t1" targetNamespace="urn:t0" elementFormDefault="qualified">'
+        '<xs:import namespace="urn:t1" schemaLocation="f1.xsd"/>'
+        '<xs:complexType name="D1"><xs:complexContent><xs:extension base="n1:B"><xs:sequence>'
+        '<xs:element name="e" type="xs:int" minOccurs="0"/></xs:sequence></xs:extension></xs:complexContent></xs:complexType>'
+        "</xs:schema>"
+    ),
+    "f1.xsd": (
+        f'<xs:schema xmlns:xs="{XS}" targetNamespace="urn:t1" elementFormDefault="qualified">'
+        '<xs:complexType name="B"><xs:sequence><xs:element name="e" type="xs:string" minOccurs="0"/></xs:sequence></xs:complexType>'
+        "</xs:schema>"
+    ),
+    "f2.xsd": (
+        f'<xs:schema xmlns:xs="{XS}" xmlns:n1="urn:t1" targetNamespace="urn:t1" elementFormDefault="qualified">'
+        '<xs:include schemaLocation="f1.xsd"/>'
+        '<xs:complexType name="D2"><xs:complexContent><xs:extension base="n1:B"><xs:sequence>'
+        '<xs:element name="e" type="xs:date" minOccurs="0"/></xs:sequence></xs:extension></xs:complexContent></xs:complexType>'
+        "</xs:schema>"
+    ),
+}
+
+
+def finding_override_order():
+    """B{e}, D1 extends B {e} (another namespace: ValidateAttributesOverrides renames B.e to t1_e),
+    D2 extends B {e} (same namespace: an override of B.e, removed -- unless B.e was renamed before)."""
+    import c12_explain as X
+
+    o = {"structure_style": "single-package", "package": "gen"}
+    a = S.generate_full("api", OVERRIDE_ORDER_SCHEMAS, o, None)
+    b = S.generate_full("api", OVERRIDE_ORDER_SCHEMAS, o, None, "reversed")
+    if "files" not in a or "files" not in b:
+        return False, f"generation failed: {a.get('err')} {b.get('err')}"
+    fid, why = X.uri_order_explains(a["files"], b["files"], OVERRIDE_ORDER_SCHEMAS, o)
+    has = ["    e: None | XmlDate" in r["files"].get("gen.py", "") for r in (a, b)]
+    return has == [True, False] and fid == "C12-F7", f"field D2.e present for [f0, f1, f2]: {has[0]}, for [f2, f1, f0]: {has[1]} ({why})"
+
+
+def finding_uri_order_explained():
+    still, detail = finding_uri_order()
+    if not still:
+        return still, detail
+    import c12_explain as X
+
+    o = {"structure_style": "single-package", "package": "gen"}
+    a = S.generate_full("api", URI_ORDER_SCHEMAS, o, None)
+    b = S.generate_full("api", URI_ORDER_SCHEMAS, o, None, "reversed")
+    fid, why = X.uri_order_explains(a["files"], b["files"], URI_ORDER_SCHEMAS, o)
+    return fid == "C12-F6", detail + f" ({why})"
+
+
 FINDINGS = {
     "C12-F3": finding_header_timestamp,
-    "C12-F6": finding_uri_order,
+    "C12-F6": finding_uri_order_explained,
+    "C12-F7": finding_override_order,  # replayed once known_findings.json lists it
 }
